@@ -51,6 +51,16 @@ def gen_case(rng):
     k = rng.randint(0, 4)
     case["calls"] = [call, {"n": m, "dur": [rng.choice([0.0, 0.01]) for _ in range(m)]},
                      {"n": k, "dur": [0.0] * k, "phantom": True}]
+    if rng.random() < 0.06:
+        # focus: a managed object whose generator is dropped by a foreign thread right before the with-block is left
+        case["managed"] = True
+        call["consume"]["final"] = "drop_other"
+    if call["consume"]["final"] == "drop_other" and case.get("managed") and rng.random() < 0.6:
+        # no second call: the with-block is left as soon as the foreign thread's `del` has returned, while joblib's helper
+        # thread may still be cleaning up
+        call["consume"]["at_once"] = True
+        call["consume"]["exit_at_once"] = True
+        case["calls"][1]["phantom"] = True
     # every stall probe lasts 30.5 simulated seconds, sleeps add up: budget the virtual clock accordingly
     case["max_time"] = 2 * sum(call["dur"]) + 200.0 + sum(35.0 if o[0] == "stall" else (o[1] if o[0] == "sleep" else 0) for o in ops)
     case["strategy"] = ds.draw_strategy(rng)
@@ -247,6 +257,19 @@ def run_case(case):
                 hold["rec"].pop("drop_other", None)
                 pc.mark_over(w, hold["rec"])
         w.call_hooks = [hook]
+
+        def before_exit(w, s, p):
+            # no second call: the with-block is left as soon as the foreign thread's `del` has returned (main has dropped
+            # its own references by now, so that `del` is the one that finalises the generator)
+            if "other" in hold and w.case["calls"][0]["consume"].get("exit_at_once"):
+                done, t = hold["other"]
+                while not done:
+                    s.block()
+                w.probes["with_block_left_while_the_detached_abort_may_still_run"] += 1
+                hold["rec"]["detached_abort_pending"] = True
+                hold["rec"].pop("drop_other", None)     # (the run is not stamped as over: joblib's helper thread and the
+                #                                         exit of the with-block end it together; that exit is what is judged)
+        w.after_hooks = [before_exit]
     w, s = pc.run_parallel_case(case, consumer=cons, setup=setup)
     v = oracle(w, s)
     out = pc.base_outcome(w, s, v, sample=pc.small_trace(w, 40))
